@@ -213,6 +213,21 @@ class Evaluator:
                     return None
         return env
 
+    def _returns_values(self, fi: FuncInfo) -> bool:
+        cache = self.__dict__.setdefault('_rv_cache', {})
+        if fi.qualname not in cache:
+            def walk(n):
+                for c in ast.iter_child_nodes(n):
+                    if isinstance(c, (ast.FunctionDef, ast.AsyncFunctionDef, ast.Lambda, ast.ClassDef)):
+                        continue
+                    if isinstance(c, ast.Return) and c.value is not None and not (isinstance(c.value, ast.Constant) and c.value.value is None):
+                        return True
+                    if walk(c):
+                        return True
+                return False
+            cache[fi.qualname] = walk(fi.node)
+        return cache[fi.qualname]
+
     def eval_default(self, fi: FuncInfo, node: ast.expr) -> Val:
         st = State()
         fr = Frame(None, fi.module, fi.cls)
@@ -244,8 +259,8 @@ class Evaluator:
         st.heap = sub.heap
         if top:
             self.top_state = sub
-        if falls and fr.returns:
-            # control may fall off the end of a function that also returns values: implicit None
+        if falls and (fr.returns or self._returns_values(fi)):
+            # control may fall off the end of a function that also returns values (on this or on other paths): implicit None
             fr.returns.append((sub.guard, NONE))
             self.emit('fallthrough', sub, fi.node, func=fi)
         if not falls and not fr.returns and not top:
